@@ -497,7 +497,7 @@ def drive_one(case, work):
             if op["u"]:
                 kw["uid"] = rec.uid[op["u"]["same"]]
             pg = o.create_property_group(**kw)
-            pg.add_properties([inst(d) for d in op["ds"]])
+            pg.add_properties([tab[d] for d in op["ds"] if d in tab])  # add_properties keeps the data children only
         elif t == "copy":
             e, tg = inst(op["e"]), inst(op["t"])
             if rec.kind[op["e"]] == "group":
@@ -755,9 +755,20 @@ def oracle(case, obs):
                 if prev["insts"][e]["kind"] == "group":
                     srcs = [e]
                 taken = set(before_reps)
+                kinds_of = {}
+                for kk, r in enumerate(prev["insts"]):
+                    if r["alive"] and r["ws"] == dst_ws and r["kind"] != "type" and kk in registered:
+                        kinds_of.setdefault(r["rep"], set()).add(r["kind"])
                 for s, k in zip(srcs, created):
                     free = prev["insts"][s]["rep"] not in taken  # identifiers taken by the earlier parts of this very copy count
                     taken.add(insts[k]["rep"])
+                    kinds_of.setdefault(insts[k]["rep"], set())
+                    other_kind_only = insts[k]["kind"] not in kinds_of.get(prev["insts"][s]["rep"], set())
+                    kinds_of[insts[k]["rep"]].add(insts[k]["kind"])
+                    if not free and insts[k]["rep"] == prev["insts"][s]["rep"] and other_kind_only:
+                        # the identifier is held by an instance of ANOTHER kind: each registry only knows its own kind
+                        add("cross-kind-identifier-shared", f"op {i}: copy {k} of {s} keeps identifier #{insts[k]['rep']} held by another kind in workspace {dst_ws}")
+                        continue
                     if free and insts[k]["rep"] != prev["insts"][s]["rep"]:
                         add("cross-ws-copy-drops-free-identifier", f"op {i}: copy {k} of {s} got a new identifier although #{prev['insts'][s]['rep']} was free in workspace {dst_ws}")
                     if not free and insts[k]["rep"] == prev["insts"][s]["rep"]:
